@@ -63,6 +63,7 @@ def run_workload(tier, seed, shard_s, shard_t):
         descs = [{'name': 's%s%d' % (variant[0], s), 'variant': variant, 'binary': binary,
                   'nstreams': max(1, int(cfg['nstreams'] * frac) // nsh), 'nmirror': max(1, int(cfg['nmirror'] * frac) // nsh),
                   'dense': cfg['dense'], 'longmax': cfg['longmax'], 'nlong': 1 if (s < 4 and variant == 'release') else 0,
+                  'verylong': ((2 ** 20 if tier == 'quick' else 2 ** 22) if (s == 0 and variant == 'release') else 0),
                   'seed': seed * 1000003 + s * 7919 + sum(map(ord, variant))} for s in range(nsh)]
         total.merge(common.run_shards(shard_s, descs))
     return total, cfg
